@@ -21,13 +21,16 @@ RULE = ("cases = (transport serial|socket, greeting start|none|'Grbl 1.1', "
         "1..8 statements incl. M114/M105 queries whose report precedes the "
         "ok, per statement: acknowledgement withheld for 0..3 controller "
         "ticks, 0..2 unsolicited lines before it (busy echo, temperature "
-        "auto-report, Grbl status), an error reply instead of the ack "
+        "auto-report, Grbl status, status lines that only contain the words ok / "
+        "error / alarm / !! without starting with them), an error reply instead of the ack "
         "(error:20 / Error:.. / ALARM:1 / !! ..) at a chosen position, an "
         "unsolicited error/alarm line after an acknowledgement (must surface "
         "at the next write), "
         "connection loss at any position (later writes must raise, not hang), a "
         "second writer object in the same process whose device acknowledges "
-        "while this one's acknowledgement is withheld; handshake replies drained "
+        "while this one's acknowledgement is withheld; a short set_timeout() "
+        "configured after connecting (the acknowledgement then takes longer "
+        "than the timeout); handshake replies drained "
         "before the first statement, or (minority, counted) not); "
         "non-trivial = a case where some ack was withheld >=1 tick, or an "
         "error / unsolicited line / loss occurred; distinct by SHA-1")
@@ -58,7 +61,12 @@ STATEMENTS = ["G1 X{i} Y2 F1500", "G0 Z{i}", "M104 S{i}", "M114", "M105", "G92 E
               # interior runs of blanks and tabs must arrive unmodified
               "M117 Layer  {i} of   10", "G1 X{i}\tY2\t F300"]
 UNSOLICITED = ["echo:busy: processing", " T:200.0 /210.0 B:60.0 /60.0 @:64",
-               "<Idle|MPos:1.000,2.000,3.000|FS:0,0>", "wait", "//action:notification"]
+               "<Idle|MPos:1.000,2.000,3.000|FS:0,0>", "wait", "//action:notification",
+               # status lines that merely CONTAIN ok / error / alarm words: neither an
+               # acknowledgement nor an error (both are defined by how a reply STARTS)
+               "echo:SD card ok", "echo:Settings stored (562 bytes; crc 5834) ok",
+               "[MSG:Check ok]", "echo:last error: none", "[MSG:Reset to clear alarm state]",
+               "echo:!! is not a command"]
 ERRORS = ["error:20", "Error:Printer halted. kill() called!", "ALARM:1", "!! halted",
           "error: Unknown command"]
 TICK = 0.012
@@ -153,6 +161,12 @@ def run_case(case, cl=None):
                     time.sleep(0.004)
                 time.sleep(0.05)
                 cl.add("second_writer_in_process")
+            if case.get("short_timeout"):
+                # a short "timeout for device operations" configured after the
+                # connection is up: an acknowledgement that takes longer must
+                # still be awaited (or the timeout raised), never skipped
+                w.set_timeout(0.02)
+                cl.add("short_writer_timeout")
             for k, (st_, txt) in enumerate(zip(case["stmts"], sent_texts)):
                 gate = f"g{k}"
                 box = {}
@@ -184,8 +198,11 @@ def run_case(case, cl=None):
                 held = fw.gate_waiting(gate)
                 if held:
                     ticks = st_.get("hold", 0)
+                    # with a short writer timeout the acknowledgement is held
+                    # back beyond the writer's own polling period (0.1 s)
+                    tick = 0.065 if case.get("short_timeout") else TICK
                     t1 = time.time()
-                    while time.time() - t1 < TICK * ticks:
+                    while time.time() - t1 < tick * ticks:
                         if "r" in box:
                             break
                         time.sleep(0.002)
@@ -198,6 +215,13 @@ def run_case(case, cl=None):
                             raise HarnessError(f"second writer's own write failed: {r2!r}")
                         time.sleep(0.03)
                         cl.add("other_writer_acked_while_withheld")
+                    if "r" in box and case.get("short_timeout") and box["r"][0] == "exc" \
+                            and type(box["r"][1]).__name__ == "DeviceTimeoutError":
+                        # a timeout surfaced as an exception is not "returning
+                        # before the acknowledgement": tolerated, case ends here
+                        cl.add("timeout_raised_instead_of_waiting")
+                        fw.release(gate)
+                        return
                     if "r" in box:
                         raise Violation(
                             f"write({txt!r}) returned ({box['r'][0]}) while the device was "
@@ -336,7 +360,17 @@ def in_known_class(case):
     return not case["drain"]
 
 
+def _quiet():
+    # the sender logs every lost connection at ERROR level; without a handler
+    # Python's last-resort handler would print hundreds of lines to stderr
+    import logging
+    lg = logging.getLogger("gscrib")
+    if not any(isinstance(h, logging.NullHandler) for h in lg.handlers):
+        lg.addHandler(logging.NullHandler())
+
+
 def replay(case):
+    _quiet()
     for _ in range(3):        # thread timing: give a failure three chances to show
         run_case(case)
 
@@ -346,7 +380,7 @@ def strategy():
     stmt = st.fixed_dictionaries({
         "s": st.integers(0, 11), "hold": st.integers(0, 3)}, optional={
         "poke": st.booleans(),
-        "unsolicited": st.lists(st.integers(0, 4), min_size=1, max_size=2),
+        "unsolicited": st.lists(st.integers(0, len(UNSOLICITED) - 1), min_size=1, max_size=2),
         "error": st.integers(0, 4), "okline": st.booleans(),
         "alarm_after": st.integers(0, 4)})
     return st.fixed_dictionaries({
@@ -356,6 +390,7 @@ def strategy():
         "drain": st.sampled_from([True] * 9 + [False]),
         "handshake_latency": st.sampled_from([0, 40, 120]),
         "second_writer": st.sampled_from([False, False, True]),
+        "short_timeout": st.sampled_from([False, False, True]),
         "lose_last": st.one_of(st.just(False), st.just(False), st.just(True),
                                st.integers(0, 7))}).map(_finish)
 
@@ -375,6 +410,7 @@ def _finish(c):
 
 def run_shard(ctx):
     n = 22 if ctx.tier == "quick" else 800
+    _quiet()
 
     def body(case):
         cl = set()
